@@ -5,6 +5,8 @@ parser or to a native compiles and passes every test until a script supplies the
 `BoundsCheck` assertion and every call of an `Index::index`/`index_mut` implementation of the standard containers that is not behind a
 comparison of the index with the length (or emptiness) of the container it indexes.  `HashMap` / range indexing have no such guard idiom and
 are always reported."""
+import re
+
 import facts as F
 import mir as M
 from c09 import ancestors
@@ -71,6 +73,61 @@ def sites(fx, scope):
                     yield f, bi, t[6], kind, t[2][1], t[2][0]
 
 
+STR_POS = re.compile(r"(String::(truncate|insert|insert_str|remove|drain|split_off|replace_range)|str::<impl str>::(split_at|split_at_mut))$")
+BYTE_SRC = ("::len", "::find", "::rfind", "::len_utf8", "::floor_char_boundary", "::ceil_char_boundary", "::position", "::rposition")
+
+
+def byte_origin(lv, f=None):
+    """every origin of the position is a byte length / byte offset of some text (or 0): positions computed from a character count, a
+    caller's number or a non-zero constant are not"""
+    if not lv:
+        return False
+    for x in lv:
+        if x[0] == "const":
+            if x[1] != 0:
+                return False
+        elif x[0] == "call":
+            if not x[1].endswith(BYTE_SRC):
+                return False
+        elif x[0] == "bin":
+            # a sum / difference of byte offsets stays on a boundary only if both sides are; a constant side must be 0
+            if not (byte_origin(x[2], f) and byte_origin(x[3], f)):
+                return False
+        elif x[0] == "field" and f is not None and str(x[1]).endswith("Option"):
+            # `if let Some(i) = s.find(..)`: the payload of an Option returned by a byte-offset search
+            ds = f.defs().get(x[3], [])
+            if not ds or not all(si == "T" and (rv[1].get("d") or "").endswith(BYTE_SRC) for _, si, rv in ds):
+                return False
+        else:
+            return False
+    return True
+
+
+def str_pos_sites(fx, scope):
+    from c20 import leaves
+    for p, f in sorted(fx.fns.items()):
+        if f.derived or not scope(f):
+            continue
+        for bi, t in f.calls():
+            d = t[1].get("d") or ""
+            m = STR_POS.search(d)
+            if not m or len(t[2]) < 2:
+                continue
+            pos = t[2][1]
+            ok = False
+            if pos[0] == "k":
+                ok = M.const_int(pos) == 0
+            elif pos[0] in ("c", "m") and "Range" not in fx.tys(f.locals[pos[1][0]]):
+                ok = byte_origin(leaves(f, pos), f)
+                if not ok:
+                    # `if s.is_char_boundary(pos)` on the way
+                    for b2, t2 in f.calls():
+                        if (t2[1].get("d") or "").endswith("::is_char_boundary") and t2[4] >= 0 and f.dominates(t2[4], bi) and len(t2[2]) > 1 and \
+                                t2[2][1][0] in ("c", "m") and ancestors(f, t2[2][1][1][0]) & ancestors(f, pos[1][0]):
+                            ok = True
+            yield f, bi, t[6], m.group(1).replace("<impl str>::", ""), ok
+
+
 def rule(fx, ck, name, scope, what):
     ck.rule(name, "no index expression (v[i], &s[a..b], map[&k]) that is not behind a comparison with the container's length: %s" % what, floor=0)
     n = 0
@@ -82,6 +139,14 @@ def rule(fx, ck, name, scope, what):
             ck.finding(name, "%s/%s/%s" % (name, f.parent if f.closure else f.path, kind.replace(" ", "-")), F.short_span(sp) if sp else None,
                        "`%s` uses a%s %s that panics when the index is out of range (or the key missing, or the cut inside a character) and is not "
                        "behind a test of the length: with `panic = abort` that ends the embedding process" % (f.path, "n" if kind[0] in "aeiou" else "", kind))
+    for f, bi, sp, api, ok in str_pos_sites(fx, scope):
+        n += 1
+        ck.instance(name, "%s: %s at a byte position%s" % (f.path, api, " (a byte length / offset of a text, or 0)" if ok else ""), F.short_span(sp), ok=ok)
+        if not ok:
+            ck.finding(name, "%s/%s/%s" % (name, f.parent if f.closure else f.path, api.split("::")[-1] + "-byte-position"), F.short_span(sp),
+                       "`%s` calls `%s` with a byte position that is not a byte length / offset taken from a text (a character count, a constant, a "
+                       "caller's number): the call panics when the position is past the end or inside a multi-byte character, and with "
+                       "`panic = abort` that ends the embedding process" % (f.path, api))
     return n
 
 
@@ -90,8 +155,8 @@ def control(fx_ctl):
     ck = Check("ctl", "quick", "", [])
     rule(fx_ctl, ck, "X", lambda f: f.path.startswith("idx::"), "")
     bad = {k[1].split("/")[1] for k in ck.findings}
-    want_bad = {"idx::unguarded", "idx::unguarded_slice", "idx::unguarded_map"}
-    want_ok = {"idx::guarded", "idx::guarded_first"}
+    want_bad = {"idx::unguarded", "idx::unguarded_slice", "idx::unguarded_map", "idx::cut_at_constant", "idx::cut_at_char_count"}
+    want_ok = {"idx::guarded", "idx::guarded_first", "idx::cut_at_own_length", "idx::cut_at_found", "idx::prepend"}
     if not want_bad <= bad or bad & want_ok:
         return "index-panic control failed: fixture reports %s" % sorted(bad)
     return None
